@@ -129,8 +129,8 @@ add("C14", "other",
     "string literal text, pinned by the repository's own test) is a known finding.", COMMON_NOTE,
     "property clauses evaluated on real token streams + token-level correspondence with the Coq lexer model + table theorems")
 
-add("C13", "other",
-    "Partial. Proved in Coq (PropC13.v) about the transactional lexer model and the Go-faithful combinator interpreter: "
+add("C13", "proof",
+    "Proved in Coq (PropC13.v) about the transactional lexer model and the Go-faithful combinator interpreter: "
     "Snapshot/Rollback restores position and stack, Snapshot/Commit keeps the position, replay below the write pointer returns "
     "the cached token, Assert / Not / Ok consume nothing; and the refinement (CombProofs.v, C13_backtracking_is_invisible): for every "
     "combinator expression over all 12 combinators and every fuel, the interpreter that issues Next/Snapshot/Commit/Rollback as the "
@@ -186,8 +186,8 @@ add("C18", "other",
     "a known finding, attributed only to reads G flags as stale.",
     COMMON_NOTE, "Coq theorems on the memory operations + three-way replay (real memory.Type, Go-algorithm model, specification) of generated histories")
 
-add("C10", "other",
-    "Partial. Proved in Coq on a model of Go slices (Slice.v: backing arrays, shared sub-slices, append that writes in place when "
+add("C10", "proof",
+    "Proved in Coq on a model of Go slices (Slice.v: backing arrays, shared sub-slices, append that writes in place when "
     "capacity allows; calc's concatenation, slicing, indexing and array building written with the primitives value.go and vm.go "
     "use): no sequence of operations changes a value that already exists, for every capacity the Go runtime may choose; without "
     "the copy before append the statement is refuted by a witness. About the VM model (StepCode.v, a case analysis over every "
